@@ -79,6 +79,11 @@ Definition go_len (n : nat) : Prop := (N.of_nat n < lim63)%N.
 Definition sane (s : vmst) : Prop :=
   go_len (length (dstack s)) /\ Forall (fun x => go_len (length x)) (dstack s).
 
+(* the numbers of the transaction context are uint64 *)
+Definition opt_u64 (x : option N) : Prop := match x with Some v => (v < lim64)%N | None => True end.
+Definition ctx_sane (cx : context) : Prop :=
+  opt_u64 (cx_amount cx) /\ opt_u64 (cx_destpos cx) /\ opt_u64 (cx_blockheight cx).
+
 (* ------------------------------------------------------------ codec lemmas *)
 
 Open Scope N_scope.
